@@ -3,10 +3,10 @@ import Fabio.Lemmas.C13
 /-!
 C13 — redirect routes answer from the request alone: property theorems.
 
-The model (`Model/C13.lean`) follows the repaired tree (D08, D17, D18, D27). Statements the code cannot
-satisfy in full generality carry their extra hypothesis explicitly (`plain` prefix/prepend, strip applying
-literally to both the decoded and the raw path): the excluded input classes are the recorded findings
-D17b/D17c/D17d of `checks/C13.findings.json`, each replayed from the corpus.
+The model (`Model/C13.lean`) follows the repaired tree (D08, D17, D17b, D17c, D18, D18b, D18c, D27). The
+one statement the code cannot satisfy in full generality carries its extra hypothesis explicitly (strip
+applying literally to both the decoded and the raw path): the excluded input class is the recorded finding
+D17d of `checks/C13.findings.json`, replayed from the corpus. Composition with C03: `Props/C13Compose.lean`.
 -/
 namespace Fabio.Props.C13
 open Fabio Fabio.Model.C13 Fabio.Lemmas.C13
@@ -30,8 +30,8 @@ theorem redirect_code_3xx_only (opt : Str) :
 
 /-- …and a target with code 0 is not answered with a redirect: it is handed to the proxy as it is. -/
 theorem code_zero_is_not_a_redirect (scheme : Str) (req : URL) (t : RTarget) (rest : List (Option RTarget))
-    (last : Option (RTarget × Option URL)) (h : t.code = 0) :
-    lookupLoop scheme req (some t :: rest) last = some (t, none) := by
+    (h : t.code = 0) :
+    lookupLoop scheme req (some t :: rest) = some (t, none) := by
   simp [lookupLoop, h]
 
 example : redirectCode (lit "301") = 301 := by decide
@@ -105,57 +105,42 @@ example : (buildRedirectURL { url := { scheme := lit "https", host := lit "$host
 theorem stripPrefix_append (s x : Str) : stripPrefix (s ++ x) s = x := by
   simp [stripPrefix, hasPrefix, isPrefixOf_self_append]
 
-theorem replacement_eq (t : RTarget) (req : URL) (r' p' : Str)
-    (hraw : req.rawPath = t.strip ++ r') (hpath : req.path = t.strip ++ p') (hne : req.rawPath ≠ []) :
+theorem replacement_eq (t : RTarget) (req : URL) (r' p' : Str) (hpre : plain t.prepend = true)
+    (hraw : escapedPath req = t.strip ++ r') (hpath : req.path = t.strip ++ p') :
     replacement t req = (t.prepend ++ p', t.prepend ++ r') := by
-  have he : req.rawPath.isEmpty = false := by cases h : req.rawPath <;> simp_all
+  have hesc : escapedPath ({ path := t.prepend } : URL) = t.prepend := escapedPath_plain _ rfl hpre
   unfold replacement
-  simp only [he]
   by_cases hs : t.strip = []
   · simp only [hs, List.nil_append] at hraw hpath
-    by_cases hp : t.prepend = [] <;> simp [hs, hp, hraw, hpath]
-  · by_cases hp : t.prepend = [] <;> simp [hs, hp, hraw, hpath, stripPrefix_append]
+    by_cases hp : t.prepend = [] <;> simp [hs, hp, hraw, hpath, hesc]
+  · by_cases hp : t.prepend = [] <;> simp [hs, hp, hraw, hpath, stripPrefix_append, hesc]
 
 /-- core: once the template is normalised to `prefix ++ "$path"` -/
 theorem escapedPath_core (t : RTarget) (req : URL) (u3 : URL) (pfx r' p' : Str)
     (h3p : u3.path = pfx ++ vPath) (h3r : u3.rawPath = pfx ++ vPath) (hd : ∀ c ∈ pfx, c ≠ 36)
     (hplain : plain pfx = true) (hpre : plain t.prepend = true)
-    (hraw : req.rawPath = t.strip ++ r') (hpath : req.path = t.strip ++ p') (hne : req.rawPath ≠ [])
-    (hv : validEncoded r' = true) (hu : unescape r' = some p') (hr : r' ≠ []) :
+    (hraw : escapedPath req = t.strip ++ r') (hpath : req.path = t.strip ++ p')
+    (hv : validEncoded r' = true) (hu : unescape r' = some p') (hr : r' ≠ [])
+    (habs : hasPrefix (pfx ++ (t.prepend ++ p')) slash = true) :
     escapedPath (stage6 req (stage5 (stage4 t req u3))) = pfx ++ (t.prepend ++ r') := by
   have hc : contains vPath u3.path = true := by
     rw [h3p]; have := contains_vPath_append pfx []; simpa using this
   have e4p : (stage4 t req u3).path = pfx ++ (t.prepend ++ p') := by
-    unfold stage4; rw [if_pos hc, replacement_eq t req r' p' hraw hpath hne]
+    unfold stage4; rw [if_pos hc, replacement_eq t req r' p' hpre hraw hpath]
     simp only []
     have := replace1_vPath_append pfx (t.prepend ++ p') [] hd
     simp only [List.append_nil] at this
     split <;> simp [h3p, this]
   have e4r : (stage4 t req u3).rawPath = pfx ++ (t.prepend ++ r') := by
-    unfold stage4; rw [if_pos hc, replacement_eq t req r' p' hraw hpath hne]
+    unfold stage4; rw [if_pos hc, replacement_eq t req r' p' hpre hraw hpath]
     simp only []
     have := replace1_vPath_append pfx (t.prepend ++ r') [] hd
     simp only [List.append_nil] at this
     split <;> simp [h3r, this]
-  have hp'ne : pfx ++ (t.prepend ++ p') ≠ [] := by
-    intro h
-    simp only [List.append_eq_nil_iff] at h
-    obtain ⟨_, _, hp'⟩ := h
-    subst hp'
-    cases r' with
-    | nil => exact hr rfl
-    | cons c cs =>
-      -- unescape of a non-empty string is never the empty string
-      rw [unescape.eq_def] at hu
-      split at hu <;> simp_all
-      all_goals (cases h : unescape _ <;> simp_all)
-  have e5p : (stage5 (stage4 t req u3)).path = pfx ++ (t.prepend ++ p') := by
-    have : (stage4 t req u3).path.isEmpty = false := by rw [e4p]; cases h : pfx ++ (t.prepend ++ p') <;> simp_all
-    unfold stage5
-    rw [this]
-    exact e4p
-  have e5r : (stage5 (stage4 t req u3)).rawPath = pfx ++ (t.prepend ++ r') := by
-    unfold stage5; split <;> simp [e4r]
+  have e5 : stage5 (stage4 t req u3) = stage4 t req u3 := by
+    unfold stage5; rw [e4p, habs]; rfl
+  have e5p : (stage5 (stage4 t req u3)).path = pfx ++ (t.prepend ++ p') := by rw [e5]; exact e4p
+  have e5r : (stage5 (stage4 t req u3)).rawPath = pfx ++ (t.prepend ++ r') := by rw [e5]; exact e4r
   have e6p : (stage6 req (stage5 (stage4 t req u3))).path = pfx ++ (t.prepend ++ p') := by
     unfold stage6; split <;> simp [e5p]
   have e6r : (stage6 req (stage5 (stage4 t req u3))).rawPath = pfx ++ (t.prepend ++ r') := by
@@ -180,52 +165,67 @@ theorem norm_hostPath (t : RTarget) (h : Str) (hh : t.url.host = h ++ vPath) :
   unfold stage2; rw [if_pos hs]
   unfold stage3; simp [e]
 
+theorem stage1_rawPath_plain (t : RTarget) (hr0 : t.url.rawPath = []) (hpl : plain t.url.path = true) :
+    (stage1 t).rawPath = t.url.path := by
+  simp only [stage1]; exact escapedPath_plain _ hr0 hpl
+
 theorem norm_slashPath (t : RTarget) (pfx : Str) (hh : hasSuffix t.url.host vPath = false)
-    (hp : t.url.path = pfx ++ vSlashPath) (hd : ∀ c ∈ pfx, c ≠ 36) :
+    (hp : t.url.path = pfx ++ vSlashPath) (hd : ∀ c ∈ pfx, c ≠ 36)
+    (hr0 : t.url.rawPath = []) (hpl : plain pfx = true) :
     (stage3 (stage2 (stage1 t))).path = pfx ++ vPath ∧ (stage3 (stage2 (stage1 t))).rawPath = pfx ++ vPath := by
   have e2 : stage2 (stage1 t) = stage1 t := by unfold stage2; simp [stage1, hh]
   have hc : contains vSlashPath (stage1 t).path = true := by
     have := contains_vSlashPath_append pfx []; simpa [stage1, hp] using this
   have hr := replace1_vSlashPath_append pfx [] hd
   simp only [List.append_nil] at hr
+  have hraw : (stage1 t).rawPath = pfx ++ vSlashPath := by
+    rw [stage1_rawPath_plain t hr0 (by rw [hp, plain_append, hpl]; decide), hp]
+  have hpath : (stage1 t).path = pfx ++ vSlashPath := by simp [stage1, hp]
   rw [e2]; unfold stage3; rw [if_pos hc]
-  simp [stage1, hp, hr]
+  simp [hraw, hpath, hr]
 
 theorem norm_barePath (t : RTarget) (pfx : Str) (hh : hasSuffix t.url.host vPath = false)
-    (hp : t.url.path = pfx ++ vPath) (hd : ∀ c ∈ pfx, c ≠ 36) (hl : pfx.getLast? ≠ some 47) :
+    (hp : t.url.path = pfx ++ vPath) (hd : ∀ c ∈ pfx, c ≠ 36) (hl : pfx.getLast? ≠ some 47)
+    (hr0 : t.url.rawPath = []) (hpl : plain pfx = true) :
     (stage3 (stage2 (stage1 t))).path = pfx ++ vPath ∧ (stage3 (stage2 (stage1 t))).rawPath = pfx ++ vPath := by
   have e2 : stage2 (stage1 t) = stage1 t := by unfold stage2; simp [stage1, hh]
   have hc : contains vSlashPath (stage1 t).path = false := by
     simpa [stage1, hp] using not_contains_vSlashPath pfx hd hl
+  have hraw : (stage1 t).rawPath = pfx ++ vPath := by
+    rw [stage1_rawPath_plain t hr0 (by rw [hp, plain_append, hpl]; decide), hp]
+  have hpath : (stage1 t).path = pfx ++ vPath := by simp [stage1, hp]
   rw [e2]; unfold stage3; rw [if_neg (by simp [hc])]
-  simp [stage1, hp]
+  simp [hraw, hpath]
 
 /-- **The Location path is the request's path, in the request's own encoding.**
 For each of the three spellings — `host$path`, `…prefix/$path`, `…prefix$path` — of a template whose
-prefix is plain (no byte that needs escaping, no `$`), with a plain `prepend`, and a request whose raw path
-`strip ++ r'` is a valid encoding of its decoded path `strip ++ p'` (`strip` empty or applying literally to
-both): the bytes that go into `Location` are exactly `prefix ++ prepend ++ r'` — the client's percent-encoding
+prefix is plain (no byte that needs escaping, no `$`), with a plain `prepend`, and a request whose escaped path
+(`URL.EscapedPath()`: the bytes the client wrote whenever they are a valid encoding) is `strip ++ r'` and whose
+decoded path is `strip ++ p'` (`strip` empty or applying literally to both): the bytes that go into `Location` are exactly `prefix ++ prepend ++ r'` — the client's percent-encoding
 (`%2F`, `%3F`, `%25`, lower-case hex …) is kept byte for byte.
 
-Full statement without the plainness / literal-strip hypotheses is false on the code as it is: findings
-D17b (template prefix encoded), D17c (prefix/prepend needing escaping), D17d (strip matching only one of
-the two paths); before the repair of D17 it was false for every `host$path` template
-(`https://$host$path`, `/a%2Fb` ↦ `/a/b`). -/
+The hypothesis that strip applies literally to both paths is forced: without it the statement is false on
+the code (finding D17d, strip matching only one of the two paths). The plainness hypotheses on prefix and
+prepend are *not* forced any more since the repairs of D17b/D17c (the code escapes the literal parts); they
+remain here because lifting them needs `unescape (escape s) = some s` for arbitrary bytes, which is
+covered by the correspondence (`c13.url` spec) and not proved. Before the repair of D17 the statement was
+false for every `host$path` template (`https://$host$path`, `/a%2Fb` ↦ `/a/b`). -/
 theorem location_path_is_request_path (t : RTarget) (req : URL) (pfx r' p' : Str)
     (spelling :
       (∃ h, t.url.host = h ++ vPath ∧ pfx = []) ∨
-      (hasSuffix t.url.host vPath = false ∧ t.url.path = pfx ++ vSlashPath) ∨
-      (hasSuffix t.url.host vPath = false ∧ t.url.path = pfx ++ vPath ∧ pfx.getLast? ≠ some 47))
+      (hasSuffix t.url.host vPath = false ∧ t.url.rawPath = [] ∧ t.url.path = pfx ++ vSlashPath) ∨
+      (hasSuffix t.url.host vPath = false ∧ t.url.rawPath = [] ∧ t.url.path = pfx ++ vPath ∧ pfx.getLast? ≠ some 47))
     (hd : ∀ c ∈ pfx, c ≠ 36) (hplain : plain pfx = true) (hpre : plain t.prepend = true)
-    (hraw : req.rawPath = t.strip ++ r') (hpath : req.path = t.strip ++ p') (hne : req.rawPath ≠ [])
-    (hv : validEncoded r' = true) (hu : unescape r' = some p') (hr : r' ≠ []) :
+    (hraw : escapedPath req = t.strip ++ r') (hpath : req.path = t.strip ++ p')
+    (hv : validEncoded r' = true) (hu : unescape r' = some p') (hr : r' ≠ [])
+    (habs : hasPrefix (pfx ++ (t.prepend ++ p')) slash = true) :
     escapedPath (buildRedirectURL t req) = pfx ++ (t.prepend ++ r') := by
   have hn : (stage3 (stage2 (stage1 t))).path = pfx ++ vPath ∧ (stage3 (stage2 (stage1 t))).rawPath = pfx ++ vPath := by
-    rcases spelling with ⟨h, hh, rfl⟩ | ⟨hh, hp⟩ | ⟨hh, hp, hl⟩
+    rcases spelling with ⟨h, hh, rfl⟩ | ⟨hh, hr0, hp⟩ | ⟨hh, hr0, hp, hl⟩
     · exact norm_hostPath t h hh
-    · exact norm_slashPath t pfx hh hp hd
-    · exact norm_barePath t pfx hh hp hd hl
-  exact escapedPath_core t req _ pfx r' p' hn.1 hn.2 hd hplain hpre hraw hpath hne hv hu hr
+    · exact norm_slashPath t pfx hh hp hd hr0 hplain
+    · exact norm_barePath t pfx hh hp hd hl hr0 hplain
+  exact escapedPath_core t req _ pfx r' p' hn.1 hn.2 hd hplain hpre hraw hpath hv hu hr habs
 
 /-- D17's witness, now repaired: `https://$host$path`, request `/a%2Fb` keeps `%2F`. -/
 example : location { url := { scheme := lit "https", host := lit "$host$path" }, code := 301 }
@@ -236,9 +236,18 @@ example : location { url := { scheme := lit "https", host := lit "bar.com", path
     { host := lit "x.com", path := lit "/s/a/b c", rawPath := lit "/s/a%2Fb%20c" } = lit "https://bar.com/bbb/p/a%2Fb%20c" := by decide
 example : location { url := { scheme := lit "https", host := lit "bar.com", path := lit "/bbb$path" }, code := 302 }
     { host := lit "x.com", path := lit "/a?b", rawPath := lit "/a%3fb" } = lit "https://bar.com/bbb/a%3fb" := by decide
-/-- the recorded finding D17c on the model: a prepend that needs escaping makes `net/url` re-encode, `%2F` is lost -/
+/-- D17c, repaired: a prepend that needs escaping no longer costs the request its `%2F` -/
 example : location { url := { scheme := lit "https", host := lit "bar.com", path := lit "/$path" }, prepend := lit "/a b", code := 301 }
-    { host := lit "x.com", path := lit "/x/y", rawPath := lit "/x%2Fy" } = lit "https://bar.com/a%20b/x/y" := by decide
+    { host := lit "x.com", path := lit "/x/y", rawPath := lit "/x%2Fy" } = lit "https://bar.com/a%20b/x%2Fy" := by decide
+/-- D17b, repaired: the template's own `%2F` stays -/
+example : location { url := { scheme := lit "https", host := lit "bar.com", path := lit "/a/b/$path", rawPath := lit "/a%2Fb/$path" }, code := 301 }
+    { host := lit "x.com", path := lit "/x" } = lit "https://bar.com/a%2Fb/x" := by decide
+/-- D17d, recorded: strip matching only the decoded path -/
+example : location { url := { scheme := lit "https", host := lit "bar.com", path := lit "/$path" }, strip := lit "/foo", code := 301 }
+    { host := lit "x.com", path := lit "/foo/a/b", rawPath := lit "/%66oo/a%2Fb" } = lit "https://bar.com/a/b" := by decide
+/-- D18b, repaired: `strip=/` on `host$path` — the built path is absolute, so the comparison sees the loop -/
+example : selfRedirect (buildRedirectURL { url := { scheme := lit "https", host := lit "$host$path" }, strip := lit "/", code := 308 }
+    { host := lit "example.com:443", path := lit "/]", rawPath := lit "/]" }) (lit "https") { host := lit "example.com:443", path := lit "/]", rawPath := lit "/]" } = true := by decide
 /-- an empty resulting path is sent as `/` -/
 example : location { url := { scheme := lit "https", host := lit "bar.com$path" }, strip := lit "/foo", code := 301 }
     { host := lit "x.com", path := lit "/foo" } = lit "https://bar.com/" := by decide
@@ -246,11 +255,10 @@ example : location { url := { scheme := lit "https", host := lit "bar.com$path" 
 /-! ### self-redirect skip -/
 
 /-- A redirect whose URL has the request's own scheme, host and path is skipped: the loop goes on to the
-next matching host (and remembers the skipped target only for the case that it was the last host). -/
+next matching host as if this host had no route (D18c repaired: the skipped target is dropped). -/
 theorem self_redirect_skipped (scheme : Str) (req : URL) (t : RTarget) (rest : List (Option RTarget))
-    (last : Option (RTarget × Option URL)) (hc : t.code ≠ 0)
-    (hs : selfRedirect (buildRedirectURL t req) scheme req = true) :
-    lookupLoop scheme req (some t :: rest) last = lookupLoop scheme req rest (some (t, some (buildRedirectURL t req))) := by
+    (hc : t.code ≠ 0) (hs : selfRedirect (buildRedirectURL t req) scheme req = true) :
+    lookupLoop scheme req (some t :: rest) = lookupLoop scheme req rest := by
   simp [lookupLoop, hc, hs]
 
 /-- …in favour of the next matching host: hosts without a matching route are passed over, and the first
@@ -259,17 +267,15 @@ theorem self_redirect_next_host_wins (scheme : Str) (req : URL) (t t2 : RTarget)
     (hc : t.code ≠ 0) (hs : selfRedirect (buildRedirectURL t req) scheme req = true) (h2 : t2.code = 0) :
     lookup scheme req (some t :: (List.replicate n none ++ some t2 :: rest)) = some (t2, none) := by
   unfold lookup
-  rw [self_redirect_skipped scheme req t _ _ hc hs]
-  generalize (some (t, some (buildRedirectURL t req))) = l
-  induction n generalizing l with
+  rw [self_redirect_skipped scheme req t _ hc hs]
+  induction n with
   | zero => simp [lookupLoop, h2]
-  | succ k ih => simp only [List.replicate_succ, List.cons_append, lookupLoop]; exact ih none
+  | succ k ih => simp only [List.replicate_succ, List.cons_append, lookupLoop]; exact ih
 
 /-- a redirect that does not point back at the request is answered at once -/
 theorem other_redirect_answered (scheme : Str) (req : URL) (t : RTarget) (rest : List (Option RTarget))
-    (last : Option (RTarget × Option URL)) (hc : t.code ≠ 0)
-    (hs : selfRedirect (buildRedirectURL t req) scheme req = false) :
-    lookupLoop scheme req (some t :: rest) last = some (t, some (buildRedirectURL t req)) := by
+    (hc : t.code ≠ 0) (hs : selfRedirect (buildRedirectURL t req) scheme req = false) :
+    lookupLoop scheme req (some t :: rest) = some (t, some (buildRedirectURL t req)) := by
   simp [lookupLoop, hc, hs]
 
 /-- The request's own scheme: `X-Forwarded-Proto` when present, else the connection (D18 repaired). -/
